@@ -31,7 +31,8 @@ fn add<S: Subject>(jobs: &mut Vec<Box<dyn JobT>>, variant: &str, w: Weights, ex:
     let ctx = Ctx::new(Disc::Causal).ex(ex);
     let label = format!("{}/causal/{variant}", S::name());
     jobs.push(
-        job(label, q, t, move || plan_strategy(&pc), move |p: &Plan, st: &mut Stats| check_model::<S>(p, &ctx, st, &partial_key_remove::<S>, "Map read differs from the observed-remove / reset-remove specification"))
+        job(label, q, t, { let pc = pc.clone(); move || plan_strategy(&pc) }, move |p: &Plan, st: &mut Stats| check_model::<S>(p, &ctx, st, &partial_key_remove::<S>, "Map read differs from the observed-remove / reset-remove specification"))
+            .decoder({ let pc = pc.clone(); move |d: &[u8]| decode_plan(&pc, d) })
             .floor("nontrivial", 0.02)
             .boxed(),
     );
@@ -40,16 +41,16 @@ fn add<S: Subject>(jobs: &mut Vec<Box<dyn JobT>>, variant: &str, w: Weights, ex:
 pub fn property() -> Property {
     let mut jobs: Vec<Box<dyn JobT>> = Vec::new();
     // strict sub-domains: no exemption active at all
-    add::<MapOrswot>(&mut jobs, "ops (strict)", Weights::ops_only(), &[], 10_000, 400_000);
-    add::<MapMapOrswot>(&mut jobs, "ops (strict)", Weights::ops_only(), &[], 8000, 300_000);
+    add::<MapOrswot>(&mut jobs, "ops (strict)", Weights::ops_only(), &[], 30000, 400_000);
+    add::<MapMapOrswot>(&mut jobs, "ops (strict)", Weights::ops_only(), &[], 24000, 300_000);
     // MVReg leaves: MAP-T2 exempted per key (extra written values only)
-    add::<MapMVReg>(&mut jobs, "ops", Weights::ops_only(), &[Class::T2], 10_000, 400_000);
-    add::<MapMapMVReg>(&mut jobs, "ops", Weights::ops_only(), &[Class::T2], 8000, 300_000);
+    add::<MapMVReg>(&mut jobs, "ops", Weights::ops_only(), &[Class::T2], 30000, 400_000);
+    add::<MapMapMVReg>(&mut jobs, "ops", Weights::ops_only(), &[Class::T2], 24000, 300_000);
     // with merges and stale merges: MAP-T1 (+T5 for MVReg leaves)
-    add::<MapOrswot>(&mut jobs, "ops+merges+stale", Weights::mixed(), &[Class::T1], 8000, 300_000);
-    add::<MapMapOrswot>(&mut jobs, "ops+merges+stale", Weights::mixed(), &[Class::T1], 6000, 200_000);
-    add::<MapMVReg>(&mut jobs, "ops+merges+stale", Weights::mixed(), &[Class::T1, Class::T2, Class::T5], 8000, 300_000);
-    add::<MapMapMVReg>(&mut jobs, "ops+merges+stale", Weights::mixed(), &[Class::T1, Class::T2, Class::T5], 6000, 200_000);
+    add::<MapOrswot>(&mut jobs, "ops+merges+stale", Weights::mixed(), &[Class::T1], 24000, 300_000);
+    add::<MapMapOrswot>(&mut jobs, "ops+merges+stale", Weights::mixed(), &[Class::T1], 18000, 200_000);
+    add::<MapMVReg>(&mut jobs, "ops+merges+stale", Weights::mixed(), &[Class::T1, Class::T2, Class::T5], 24000, 300_000);
+    add::<MapMapMVReg>(&mut jobs, "ops+merges+stale", Weights::mixed(), &[Class::T1, Class::T2, Class::T5], 18000, 200_000);
     Property {
         id: "C05",
         rule: "Plans of Map edits built from real reads (update with nested add / add_all / nested rm from the nested contains() / nested write / nested-map update / nested-map rm; key rm from get(k); add contexts from read_ctx/get/len/is_empty) on Map<u8,Orswot>, Map<u8,MVReg>, Map<u8,Map<u8,Orswot>>, Map<u8,Map<u8,MVReg>> with 3 keys, 2 nested keys, 2 members, 2-4 editors (+0-1 observer), causal op delivery with duplicates, and (second group) merges and stale-snapshot merges; after EVERY step the affected replica's keys(), get(k).val (nested content at every depth), key witnesses and map clock are compared with the recursive dot-store specification computed from its knowledge set. Non-trivial = the history has a key remove concurrent with an update of that key by another actor which the remover had not seen, and some replica knows both; distinct = distinct Plan hash.".into(),
